@@ -384,6 +384,114 @@ def odd_start(res, seq):
         r.close()
 
 
+def same_directory(res, history):
+    """One context directory is one security context: while an instance holds it, opening it again is refused, whatever was
+    tried and thrown away in between; a successor that opens it (after the holder's clean stop, or having waited for the holder
+    to go) knows what the holder accepted.  No request is accepted twice by the instances together.
+    Operations: O open (kept if it works), W open that finds the directory held and waits - meanwhile the holder accepts a fresh
+    request and stops cleanly, A a fresh request to every live instance, R the last request again, S clean stop of the oldest
+    instance, G the garbage collector runs."""
+    from .c13_nonce import Run
+    import filelock
+    import gc
+    import sys
+    case = {"family": "same-directory", "history": list(history)}
+    res.evaluations += 1
+    hook = sys.unraisablehook
+    noise = []
+    sys.unraisablehook = lambda u: noise.append(u.exc_type.__name__)
+    r = Run(1, 10000)
+    live = [r.ctx]
+    accepted = {}
+    nxt = [10]
+    last = [None]
+
+    def open_():
+        return o.FilesystemSecurityContext(r.dir, sequence_number_chunksize_start=r.start, sequence_number_chunksize_limit=r.limit)
+
+    def deliver(n, to):
+        r.peer.sender_sequence_number = n
+        outer, _ = r.peer.protect(Message(code=codes.GET, uri_path=["y"]))
+        for c in to:
+            try:
+                c.unprotect(wire(outer)[0])
+                accepted[n] = accepted.get(n, 0) + 1
+            except o.ProtectionInvalid:
+                pass
+        last[0] = n
+
+    def stop(c):
+        try:
+            c._destroy()
+        except Exception:
+            # (a clean stop that fails is not this property's subject; the instance is gone either way)
+            lf, c.lockfile = c.lockfile, None
+            if lf is not None:
+                lf.release()
+
+    try:
+        for i, op in enumerate(history):
+            if op in ("O", "W"):
+                held = bool(live)
+                if op == "W" and live:
+                    holder = live[0]
+
+                    def meanwhile(holder=holder):
+                        n = nxt[0]
+                        nxt[0] += 1
+                        deliver(n, [holder])
+                        stop(holder)
+                        live.remove(holder)
+                    filelock._while_waiting.append(meanwhile)
+                    held = len(live) > 1
+                try:
+                    c = open_()
+                except Exception as e:
+                    c = None
+                    e = None
+                del filelock._while_waiting[:]
+                if c is not None and held:
+                    live.append(c)
+                    res.violate(Violation("directory-opened-twice", "refused: the directory is held by a live instance", "opened (step %d)" % i,
+                                          "oscore.py:FilesystemSecurityContext.__init__", case, key="samedir:twice"))
+                    return
+                if c is None and not held:
+                    res.violate(Violation("directory-not-opened", "opened: nobody holds the directory", "refused (step %d)" % i,
+                                          "oscore.py:FilesystemSecurityContext.__init__", case, key="samedir:refused"))
+                    return
+                if c is not None:
+                    live.append(c)
+                    if op == "W" and last[0] is not None:
+                        deliver(last[0], [c])       # what the predecessor accepted while this one waited
+            elif op == "A":
+                n = nxt[0]
+                nxt[0] += 1
+                deliver(n, list(live))
+            elif op == "R" and last[0] is not None:
+                deliver(last[0], list(live))
+            elif op == "S" and live:
+                stop(live.pop(0))
+            elif op == "G":
+                gc.collect()
+            twice = sorted(n for n, k in accepted.items() if k > 1)
+            if twice:
+                res.violate(Violation("request-accepted-twice", "at most once per sender sequence number under one security context",
+                                      "request(s) %s accepted twice by step %d" % (twice, i), "oscore.py:FilesystemSecurityContext", case, key="samedir:accepted-twice"))
+                return
+        res.traces += 1
+        res.outcomes.add(("samedir", len(live), len(accepted)))
+        res.signatures.add(("samedir", history))
+    finally:
+        for c in live:
+            c.lockfile = None
+        if r.ctx is not None and r.ctx not in live:
+            r.ctx.lockfile = None
+        live = None
+        r.close()
+        gc.collect()
+        sys.unraisablehook = hook
+
+
 def job(arg):
     kind, item, tier = arg
     res = Result()
@@ -397,6 +505,10 @@ def job(arg):
                     lost_state(res, k, start, respond)
                     lost_state(res, k, start, respond, protect_first=True)
         res.sample({"lost_state": "k requests accepted, process death, reload", "k": [1, 2, 3]})
+    elif kind == "samedir":
+        for h in item:
+            same_directory(res, h)
+        res.sample({"same_directory": list(item[-1])})
     elif kind == "window":
         size, init, depth = item
         uninit_probe(res, size)
@@ -426,12 +538,20 @@ def run(tier, seed, jobs):
             for first in alphabet(w, initialised):
                 work.append(("arrivals", (w, initialised, first, L + (1 if (tier == "thorough" and w == 2) else 0)), tier))
     work.append(("lost", None, tier))
+    L = 4 if tier == "quick" else 6
+    hs = [h for n in range(1, L + 1) for h in itertools.product("OWARSG", repeat=n)
+          if not any(h[i] == h[i + 1] == "G" for i in range(len(h) - 1))]
+    for i in range(16):
+        work.append(("samedir", hs[i::16], tier))
     res = core.prun(job, work, jobs)
     return res
 
 
 def replay(case, scenario, seed):
     res = Result()
+    if case["family"] == "same-directory":
+        same_directory(res, tuple(case["history"]))
+        return [v for v, n in res.violations.values()]
     if case["family"] == "odd-start":
         odd_start(res, case["seq"])
     elif case["family"] == "lost-state":
